@@ -85,7 +85,9 @@ func isFrameableHTMLResponse(statusCode int, responseHeader http.Header) bool {
 		}
 	}
 	for _, contentType := range responseHeader[contentTypeHeader] {
-		if strings.Contains(contentType, "text/html") || strings.Contains(contentType, "application/xhtml+xml") {
+		// Only the media type counts, not what its parameters (e.g. `profile="text/html"`) say.
+		mediaType := strings.TrimSpace(strings.SplitN(contentType, ";", 2)[0])
+		if strings.Contains(mediaType, "text/html") || strings.Contains(mediaType, "application/xhtml+xml") {
 			return true
 		}
 	}
